@@ -211,6 +211,8 @@ class Translator:
             return a * b
         if isinstance(a, str) and isinstance(b, str) and isinstance(op, ast.Add):
             return a + b
+        if isinstance(a, str) and isinstance(op, ast.Mod):
+            return '<text>'        # "..." % values: only used for messages
         if isinstance(a, ZS) or isinstance(b, ZS):
             return self.z_binop(op, a, b, node)
         if isinstance(a, int) and isinstance(b, int):
@@ -557,6 +559,17 @@ class Translator:
             out = self.bool_and(out, v) if isinstance(e.op, ast.And) else self.bool_or(out, v)
         return out
 
+    def ev_Lambda(self, e, env):
+        # a lambda is a nested one-expression function closing over env
+        fn = ast.FunctionDef(name='<lambda>', args=e.args, body=[ast.Return(value=e.body)], decorator_list=[], returns=None)
+        ast.copy_location(fn, e); ast.fix_missing_locations(fn)
+        self._lambda_env = getattr(self, '_lambda_env', {})
+        self._lambda_env[id(fn)] = env
+        return fn
+
+    def ev_JoinedStr(self, e, env):
+        return '<text>'          # f-string: only used for messages
+
     def ev_IfExp(self, e, env):
         c = self.truth(self.ev(e.test, env), e)
         if isinstance(c, bool):
@@ -631,6 +644,9 @@ class Translator:
             args = [self.ev(a, env) for a in e.args]
             if isinstance(recv, str):
                 return '<text>'        # str.format(...) etc.: only used for messages
+            if f.attr == 'conjugate' and not args and (isinstance(recv, C) or is_realish(recv)):
+                c = self.to_c(recv)
+                return C(c.re, self.rneg(c.im))
             if isinstance(recv, list):
                 if f.attr == 'append' and len(args) == 1:
                     recv.append(args[0]); return None
@@ -649,7 +665,7 @@ class Translator:
         if isinstance(f, ast.Name) and f.id == 'isinstance' and len(e.args) == 2:
             return self.static_isinstance(self.ev(e.args[0], env), e.args[1], e)
         if isinstance(f, ast.Name):
-            args = [self.ev(a, env) for a in e.args]
+            args = self.ev_args(e.args, env, e)
             if f.id in env and isinstance(env[f.id], ast.FunctionDef):
                 return self.inline(env[f.id], args, kw, dict(env), e)
             if f.id in env and isinstance(env[f.id], Poly) and len(args) == 1:
@@ -663,6 +679,26 @@ class Translator:
             if isinstance(fv, Poly) and len(args) == 1:
                 return self.poly_call(fv, args[0])
         raise Unsupported('call', e)
+
+    def ev_args(self, argnodes, env, node):
+        """positional arguments; `*seq` of statically known length is expanded"""
+        out = []
+        for a in argnodes:
+            if isinstance(a, ast.Starred):
+                v = self.ev(a.value, env)
+                if isinstance(v, Obj): v = self.call_method(v, 'bpoints', [], node)
+                if not isinstance(v, (list, tuple)):
+                    raise Unsupported('starred argument of non-static length', node)
+                out.extend(v)
+            else:
+                out.append(self.ev(a, env))
+        return out
+
+    def ev_Dict(self, e, env):
+        keys = [self.ev(k, env) if k is not None else None for k in e.keys]
+        if not all(isinstance(k, (str, int)) for k in keys):
+            raise Unsupported('dict with non-static keys', e)
+        return {k: self.ev(v, env) for k, v in zip(keys, e.values)}
 
     no_inline = set()
     consts = {}
@@ -760,6 +796,16 @@ class Translator:
                 tv = self.truth(v, node)
                 out = self.bool_and(out, tv) if name == 'all' else self.bool_or(out, tv)
             return out
+        if name == 'hypot' and len(a) == 2 and is_realish(a[0]) and is_realish(a[1]):
+            self.need_T()        # math.hypot / np.hypot: the Euclidean norm (what abs(complex) is)
+            return R('(hypot_ T %s %s)' % (self.rs(a[0]), self.rs(a[1])))
+        if name == 'enumerate' and len(a) in (1, 2) and isinstance(a[0], (list, tuple)) and (len(a) == 1 or isinstance(a[1], int)):
+            k0 = a[1] if len(a) == 2 else 0
+            return [(k0 + i, v) for i, v in enumerate(a[0])]
+        if name == 'zip' and a and all(isinstance(v, (list, tuple)) for v in a):
+            return [tuple(t) for t in zip(*a)]
+        if name == 'reversed' and len(a) == 1 and isinstance(a[0], (list, tuple)):
+            return list(a[0])[::-1]
         if name == 'float' and len(a) == 1 and is_realish(a[0]): return a[0]
         if name == 'int' and len(a) == 1 and isinstance(a[0], (int, bool)): return int(a[0])
         if name == 'bool' and len(a) == 1: return self.truth(a[0], node)
@@ -826,6 +872,13 @@ class Translator:
                 env[p.arg] = self.ev(defaults[i - nd], {})
             else:
                 raise Unsupported('missing argument ' + p.arg, node)
+        for p, d in zip(fn.args.kwonlyargs, fn.args.kw_defaults):      # def f(x, *, m=2)
+            if p.arg in kw:
+                env[p.arg] = kw[p.arg]
+            elif d is not None:
+                env[p.arg] = self.ev(d, {})
+            else:
+                raise Unsupported('missing keyword-only argument ' + p.arg, node)
         r = self.run(fn.body, env)
         if tail:
             return r          # `return f(...)`: the callee's result IS the caller's result
@@ -841,6 +894,13 @@ class Translator:
             env[target.id] = self.bind_val(target.id, val)
         elif isinstance(target, (ast.Tuple, ast.List)):
             if isinstance(val, Obj): val = self.call_method(val, 'bpoints', [], target)
+            stars = [i for i, t in enumerate(target.elts) if isinstance(t, ast.Starred)]
+            if isinstance(val, (tuple, list)) and len(stars) == 1 and len(val) >= len(target.elts) - 1:
+                i0 = stars[0]; nrest = len(val) - (len(target.elts) - 1)      # a, *rest, z = seq
+                vals = list(val[:i0]) + [list(val[i0:i0 + nrest])] + list(val[i0 + nrest:])
+                for t, v in zip(target.elts, vals):
+                    self.assign(t.value if isinstance(t, ast.Starred) else t, v, env)
+                return
             if not isinstance(val, (tuple, list)) or len(val) != len(target.elts):
                 raise Unsupported('unpacking', target)
             for t, v in zip(target.elts, val):
@@ -911,6 +971,23 @@ class Translator:
                     self.notes.append('arc support block skipped (argument is a control-point tuple)')
                     continue
                 raise Unsupported('try statement', s)
+            if isinstance(s, ast.While):
+                # only loops whose test is STATIC at every iteration (len(...) of a static list, counters):
+                # unrolled; a symbolic test is outside the subset
+                if s.orelse:
+                    raise Unsupported('while/else', s)
+                c = self.truth(self.ev(s.test, env), s)
+                if not isinstance(c, bool):
+                    raise Unsupported('while with a symbolic condition', s)
+                self.while_fuel = getattr(self, 'while_fuel', 0) + 1
+                if self.while_fuel > 4000:
+                    raise Unsupported('while loop does not terminate statically', s)
+                if c:
+                    self.loop_id = getattr(self, 'loop_id', 0) + 1
+                    lid = self.loop_id
+                    stmts = self.mark_breaks(s.body, lid) + [s, ('endloop', lid)] + stmts[i:]
+                    i = 0
+                continue
             if isinstance(s, ast.For):
                 it = self.ev(s.iter, env)
                 if isinstance(it, Obj): it = self.call_method(it, 'bpoints', [], s)
@@ -1239,6 +1316,7 @@ class Translator:
         self.asserts = []
         self.notes = []
         self.counter = 0
+        self.while_fuel = 0
         params = []
         env = {}
         for pyname, ty in sig:
